@@ -40,7 +40,7 @@ EDIF_KEYS = ("EDIF.identifier", "EDIF.rename")
 def plan(tier):
     if tier == "thorough":
         return {"cases": 16 * 400, "shards": 16, "shard_budget_s": 1800, "watchdog_s": 2700}
-    return {"cases": 180, "shards": 4, "shard_budget_s": 240, "watchdog_s": 600}
+    return {"cases": 240, "shards": 4, "shard_budget_s": 240, "watchdog_s": 600}
 
 
 class OpenTracker:
@@ -144,18 +144,45 @@ def queries(n):
 def source(ctx, i, rng, d):
     """(netlist, format, description)"""
     n, ext, what = source_(ctx, i, rng, d)
-    if n is not None and n.name is not None and rng.random() < 0.35:
+    if n is not None and n.name is not None and rng.random() < (0.35 if ext == ".eblif" else 0.12):
         # a netlist need not have a name (only the EDIF writer is documented to default it)
         del n.name
         ctx.count("nameless_netlists:%s" % ext)
         what += " (netlist name absent)"
+    if n is not None and ext in (".v", ".eblif") and n.top_instance is not None and rng.random() < 0.15:
+        # a netlist need not have a top instance (a library of modules): the writers that accept it must leave it as it is
+        old_ = n.top_instance
+        n.top_instance = None
+        old_.reference = None
+        ctx.count("topless_netlists:%s" % ext)
+        what += " (no top instance)"
     return n, ext, what
 
 
 def source_(ctx, i, rng, d):
     k = i % 9
     if k in (0, 1):
-        n = gen_ir.generate(rng, profile="edif", ndefs=rng.randint(2, 7), style="mixed" if k else "simple")
+        deep = rng.random() < 0.5       # more cells, more sharing: cells instanced at several depths, declared in any order
+        n = gen_ir.generate(rng, profile="edif", ndefs=rng.randint(6, 12) if deep else rng.randint(2, 7), style="mixed" if k else "simple",
+                            share=0.8 if deep else 0.5, max_children=5 if deep else 4)
+        if deep and rng.random() < 0.7:
+            # a cell used at two depths, declared after its users:  O instances A and B, B instances A, library order O, B, ..., A
+            for l_ in list(n.libraries):
+                leafs_ = [d_ for d_ in l_.definitions if d_.is_leaf() and d_ is not n.top_instance.reference]
+                if not leafs_:
+                    continue
+                a_ = rng.choice(leafs_)
+                try:
+                    b_ = l_.create_definition("dia_b_%s" % l_.name)
+                    b_.create_child("a0", reference=a_)
+                    o_ = l_.create_definition("dia_o_%s" % l_.name)
+                    o_.create_child("a", reference=a_)
+                    o_.create_child("b", reference=b_)
+                    rest_ = [d_ for d_ in l_.definitions if d_ is not o_ and d_ is not b_]
+                    l_.definitions = [o_, b_] + rest_
+                    ctx.count("diamond_dependencies_planted")
+                except ValueError:
+                    pass
         # names that are not legal EDIF identifiers (the writer records a generated identifier next to them)
         pool_ = [x for l in n.libraries for d_ in l.definitions for x in [d_] + list(d_.cables) + list(d_.children)]
         for k_, x_ in enumerate(rng.sample(pool_, min(len(pool_), 4))):
